@@ -115,6 +115,7 @@ func (t *Task) syncAddr() unsafe.Pointer { return unsafe.Pointer(&t.syncVar) }
 //go:norace
 func (t *Task) Name() string { return t.name }
 
+//go:norace
 func (s *Sim) newTask(name string, fn func()) *Task {
 	t := &Task{id: -1, name: name, s: s, baton: make(chan struct{}), fn: fn}
 	return t
@@ -210,6 +211,8 @@ func (t *Task) addNote(n note) {
 
 // Spawn starts a new task running fn; the calling task continues. In the
 // simulator the child runs only when scheduled.
+//
+//go:norace
 func Spawn(name string, fn func()) *Task {
 	t := me()
 	if t == nil {
@@ -228,7 +231,11 @@ func Spawn(name string, fn func()) *Task {
 //go:norace
 func Join(ts ...*Task) {
 	t := me()
-	t.req = request{kind: opJoin, join: ts}
+	cp := make([]*Task, len(ts))
+	for i := 0; i < len(ts); i++ {
+		cp[i] = ts[i]
+	}
+	t.req = request{kind: opJoin, join: cp}
 	t.call()
 	for _, c := range ts {
 		raceAcquire(c.syncAddr())
@@ -303,6 +310,7 @@ func SimNow() time.Duration {
 
 // ---- scheduler side: request handling ----
 
+//go:norace
 func (s *Sim) enterWait(t *Task) {
 	t.waitSince = s.steps
 	switch t.req.kind {
@@ -316,6 +324,7 @@ func (s *Sim) enterWait(t *Task) {
 	}
 }
 
+//go:norace
 func chanID(ch interface{}) (uintptr, reflect.Value) {
 	v := reflect.ValueOf(ch)
 	if !v.IsValid() || v.Kind() != reflect.Chan {
@@ -327,6 +336,7 @@ func chanID(ch interface{}) (uintptr, reflect.Value) {
 	return v.Pointer(), v
 }
 
+//go:norace
 func (s *Sim) chanRecvReady(ch interface{}) bool {
 	id, v := chanID(ch)
 	if id == 0 {
@@ -339,6 +349,7 @@ func (s *Sim) chanRecvReady(ch interface{}) bool {
 	return closed
 }
 
+//go:norace
 func (s *Sim) grantable(t *Task) bool {
 	r := &t.req
 	switch r.kind {
@@ -390,6 +401,7 @@ func (s *Sim) grantable(t *Task) bool {
 }
 
 // grant updates the models for the request being granted and fills t.resp.
+//go:norace
 func (s *Sim) grant(t *Task) string {
 	r := &t.req
 	switch r.kind {
@@ -435,6 +447,7 @@ func (s *Sim) grant(t *Task) string {
 	return ""
 }
 
+//go:norace
 func (s *Sim) applyNote(t *Task, n *note) {
 	switch n.kind {
 	case noteUnlock:
